@@ -426,6 +426,255 @@ theorem ttl_and_ad_equal (remainingNs : Int) (storedAD cd reqAD clientDO : Bool)
 -- non-vacuity: 299.4 s left of a 300 s entry, AD stored, CD request
 example : wireStamp 299400000000 true true [300, 300, 60] = some ([299, 299, 299], false) := by decide
 
+/-! ## 5b. Handler branches that exist twice -/
+
+/-- **edns: the wire branch fills the writer exactly as the decoded body
+does.** For every well-formed strict-path query `m` (what `ParseWire` admits,
+by `parseWire_refines_spec`) and every transport, `EDNS.ServeDNS` on the
+wire-born request — wire branch for EDNS version 0 / no OPT, decoded body
+otherwise (BADVERS) — produces the same outcome and the same writer facts
+(size ceiling, client DO, noedns, NSID asked, keepalive, AD discipline,
+advertised size, client cookie half) as `SetEdns0` + the decoded body on the
+library's decode of the same packet. -/
+theorem edns_wire_eq_msg (m : SMsg) (p : Proto) (hwf : m.WF) :
+    ednsServeWireBorn (factsOf m) p = ednsMsg (dreqOf m) p := by
+  unfold ednsServeWireBorn
+  rw [dreqOfFacts_factsOf m hwf]
+  split
+  · rename_i hb
+    -- the wire branch: opcode 0 and version 0
+    have hop : (m.flags >>> 11) % 2 ^ 4 = 0 := hwf.opcode0
+    have hcd : decide (m.flags &&& 0x0010 ≠ 0) = m.flags.testBit 4 := by
+      have := and_two_pow_ne_zero_iff m.flags 4
+      rw [show (0x0010 : Nat) = 2 ^ 4 from rfl]
+      cases h : m.flags.testBit 4 <;> simp [this, h]
+    have had : decide (m.flags &&& 0x0020 ≠ 0) = m.flags.testBit 5 := by
+      have := and_two_pow_ne_zero_iff m.flags 5
+      rw [show (0x0020 : Nat) = 2 ^ 5 from rfl]
+      cases h : m.flags.testBit 5 <;> simp [this, h]
+    cases hopt : m.opt with
+    | none =>
+      simp only [ednsWire, ednsMsg, dreqOf, factsOf, hopt, Option.map_none]
+      rw [hcd, had]
+      simp [hop]
+    | some o =>
+      obtain ⟨hall, hcnt⟩ := hwf.optsOK o hopt
+      have hpay := (cookiePayloads_of_le_one o.options hall hcnt).1
+      have hver : o.version = 0 := by
+        simp [ednsWireBranch, factsOf, hopt, optFactsOf] at hb
+        exact hb.2
+      simp only [ednsWire, ednsMsg, dreqOf, factsOf, hopt, Option.map_some, Option.getD_some, optFactsOf]
+      rw [hcd, had]
+      simp only [hop, hver, hpay]
+      by_cases hc : cookieOf o.options = []
+      · simp [hc, setEdns0Cookie]
+      · simp [hc, setEdns0Cookie]
+  · rfl
+
+/-- … stated on the packet: whatever `ParseWire` admits is handled by the
+edns layer exactly as the decoded entry would handle the same packet. -/
+theorem edns_admitted_packet_same_writer (raw : Bytes) (f : Facts) (p : Proto) (hb : ∀ x ∈ raw, x < 256)
+    (h : parseWire raw = some f) :
+    ∃ m : SMsg, m.WF ∧ m.encode = raw ∧ ednsServeWireBorn f p = ednsMsg (dreqOf m) p := by
+  obtain ⟨m, hwf, henc, hf⟩ := parseWire_refines_spec raw f hb h
+  exact ⟨m, hwf, henc, hf ▸ edns_wire_eq_msg m p hwf⟩
+
+-- non-vacuity: DO + NSID + cookie over TCP with keepalive, CD set
+def exampleFacts : Facts :=
+  { id := 1, flags := 0x0110, labels := [], qtype := 1, qclass := 1,
+    opt := some { udpSize := 4096, dnssecOK := true, hasNSID := true, hasKeepalive := true, cookie := [1, 2, 3, 4, 5, 6, 7, 8, 9] } }
+example : ednsWire exampleFacts .tcp =
+    .next { size := 65535, dnssecOK := true, noedns := false, nsidAsked := true, keepalive := true, noad := true,
+            respUDPSize := 1232, cookie := [1, 2, 3, 4, 5, 6, 7, 8] } := by decide
+
+/-- **ratelimit: one history, one verdict per step, whichever branch ran.**
+The wire branch and the decoded body make the same decision and leave the
+same limiter state (remembered server cookie, tokens) for every state and
+input; hence for every history of one client; a replay pass changes nothing
+and passes through; a step spends at most one token and BADCOOKIE is only
+ever answered over UDP. -/
+theorem ratelimit_wire_eq_msg (s : RLState) (i : RLIn) : rlWire s i = rlMsg s i := by
+  unfold rlWire rlMsg; rfl
+
+theorem ratelimit_histories_agree (s : RLState) (h : List RLIn) : rlRun rlWire s h = rlRun rlMsg s h := by
+  induction h generalizing s with
+  | nil => rfl
+  | cons i t ih => simp only [rlRun, ratelimit_wire_eq_msg, ih]
+
+theorem ratelimit_replay_and_tokens (s : RLState) (i : RLIn) :
+    (i.replay = true → rlWire s i = (s, .next)) ∧
+    ((rlWire s i).1.tokens ≤ s.tokens ∧ s.tokens ≤ (rlWire s i).1.tokens + 1) ∧
+    ((rlWire s i).2 = .badcookie → i.udp = true) ∧
+    ((rlWire s i).2 = .drop → s.tokens = 0 ∧ (rlWire s i).1 = s) := by
+  obtain ⟨udp, ck, replay, exempt⟩ := i
+  refine ⟨fun h => by simp only at h; simp [rlWire, h], ?_⟩
+  by_cases ht : s.tokens = 0
+  · cases replay <;> cases exempt <;> cases udp <;> rcases ck with _ | ⟨cid, h⟩ <;>
+      simp [rlWire, rlAllow, ht] <;> (try split) <;> (try simp_all)
+  · cases replay <;> cases exempt <;> cases udp <;> rcases ck with _ | ⟨cid, h⟩ <;>
+      simp [rlWire, rlAllow, ht] <;> (try split) <;> (try simp_all) <;> (try omega)
+
+-- non-vacuity: cookie A over UDP, rotate to B over TCP, then B + its server half over UDP passes
+example : (rlRun rlWire { tokens := 8 } [{ udp := true, ck := some (1, .none) }, { udp := false, ck := some (2, .none) },
+      { udp := true, ck := some (2, .good) }]).2 = [.next, .next, .next] := by decide
+
+/-- **as112: the wire branch answers exactly what the decoded body answers**
+— same pass-on, same zone, same apex / below-apex verdict (hence rcode and
+sections) — for every configured zone set whose zones end in `arpa`, every
+name and every qtype (DS strips the owner label on both). -/
+theorem as112_wire_eq_msg (zones : List (List String)) (labels : List String) (qtype : Nat)
+    (hz : ∀ z ∈ zones, z.getLast? = some "arpa") :
+    asWire zones labels qtype = asMsg zones labels qtype := by
+  -- a suffix of the name that is a zone forces the name's last label to be "arpa"
+  have lastOfSuffix : ∀ (l : List String) (k : Nat) (z : List String), z = l.drop k → z ∈ zones →
+      l.getLast? = some "arpa" := by
+    intro l k z hzd hzm
+    have hl := hz z hzm
+    rw [hzd] at hl
+    by_cases hk : k < l.length
+    · rw [List.getLast?_drop] at hl; simpa [show ¬ l.length ≤ k by omega] using hl
+    · rw [List.drop_eq_nil_of_le (by omega)] at hl; simp at hl
+  have hA : endsArpa "arpa" = true := by decide
+  unfold asWire asMsg
+  by_cases harpa : labels.getLast? = some "arpa"
+  · have he : endsArpa (labels.getLast?.getD "") = true := by rw [harpa]; decide
+    simp only [harpa, ne_eq, not_true_eq_false, if_false]
+    by_cases hds : qtype = 43
+    · subst hds
+      simp only [if_true]
+      match labels, harpa with
+      | [], h => simp at h
+      | [a], _ => simp
+      | a :: b :: t, _ =>
+        have hlen : ¬ ((a :: b :: t).length < 2) := by simp
+        simp only [true_and, hlen, if_false, List.drop_succ_cons, List.drop_zero]
+        have hs := findZone_shift zones (b :: t) 0 1
+        simp only [Nat.zero_add] at hs
+        rw [hs]
+        cases hf : findZone zones 0 (b :: t) with
+        | none => simp
+        | some pr =>
+          obtain ⟨j, z⟩ := pr
+          obtain ⟨_, hzd, hzl, _⟩ := findZone_spec zones (b :: t) 0 j z hf
+          have hne : (z == a :: b :: t) = false := by
+            apply beq_false_of_ne
+            intro heq
+            rw [heq] at hzl
+            simp at hzl
+            omega
+          simp [hne, hA]
+    · simp only [hds, if_false, false_and, List.drop_zero]
+      cases hf : findZone zones 0 labels with
+      | none => simp
+      | some pr =>
+        obtain ⟨j, z⟩ := pr
+        obtain ⟨_, hzd, hzl, _⟩ := findZone_spec zones labels 0 j z hf
+        simp only [Nat.sub_zero] at hzd hzl
+        by_cases hj : j = 0
+        · subst hj
+          simp at hzd
+          simp [hzd, hA]
+        · have hne : (z == labels) = false := by
+            apply beq_false_of_ne
+            intro heq
+            rw [heq] at hzl
+            omega
+          simp [hj, hne, hA]
+  · -- the wire branch passes on; the decoded body passes on too, at its pre-check or because no zone can match
+    simp only [harpa, ne_eq, not_false_eq_true, if_true]
+    by_cases he : endsArpa (labels.getLast?.getD "") = true
+    · simp only [he, Bool.not_true, Bool.false_eq_true, if_false]
+      have noMatch : ∀ (ls : List String) (k : Nat), ls = labels.drop k → findZone zones 0 ls = none := by
+        intro ls k hls
+        cases hf : findZone zones 0 ls with
+        | none => rfl
+        | some pr =>
+          obtain ⟨j, z⟩ := pr
+          obtain ⟨_, hzd, _, hzm⟩ := findZone_spec zones ls 0 j z hf
+          exfalso
+          apply harpa
+          apply lastOfSuffix labels (k + (j - 0)) z _ hzm
+          rw [hzd, hls, List.drop_drop]
+      by_cases hds : qtype = 43
+      · subst hds
+        match labels, noMatch with
+        | [], _ => simp
+        | [a], _ => simp
+        | a :: b :: t, nm =>
+          have := nm (b :: t) 1 (by simp)
+          simp [this]
+      · have := noMatch labels 0 (by simp)
+        simp [hds, this]
+    · simp [he]
+
+-- non-vacuity: apex SOA is answered, a DS for the apex is passed on, a child is NXDOMAIN
+example : asWire [["10", "in-addr", "arpa"]] ["10", "in-addr", "arpa"] 6 = .reply true ["10", "in-addr", "arpa"] ∧
+    asWire [["10", "in-addr", "arpa"]] ["10", "in-addr", "arpa"] 43 = .next ∧
+    asMsg [["10", "in-addr", "arpa"]] ["1", "10", "in-addr", "arpa"] 12 = .reply false ["10", "in-addr", "arpa"] := by decide
+
+/-- **The header word a wire builder sends is the decoded reply's header
+word**, for every stored 16-bit word, RD, CD and AD discipline (`noad`):
+flat hit (`ApplyReply`, AD off for CD, then the edns layer) = `ToMsg` +
+`edns.WriteMsg`; the cut composer = `nxDomainCutEntry.response` +
+`WriteMsg`; the cached-failure builder = `FailureHit.Response` — and that one
+whatever the leased transmit slab held before (the header is zeroed first:
+no AD / TC / Z bit of an earlier reply survives). -/
+theorem wire_reply_flags_eq_msg (stored stale : Nat) (rd cd noad : Bool) (hs : stored < 2 ^ 16) :
+    ednsWriteWireFlags noad (wireHitFlags stored rd cd) = msgHitFlags stored rd cd noad ∧
+    (cd = false → ednsWriteWireFlags noad (wireCutFlags rd cd) = msgCutFlags rd noad) ∧
+    ednsWriteWireFlags noad (wireFailureFlags stale rd cd) = msgFailureFlags rd cd := by
+  have hadbit : decide (stored &&& FlagAD ≠ 0) = stored.testBit 5 := by
+    have := and_two_pow_ne_zero_iff stored 5
+    unfold FlagAD
+    cases h : stored.testBit 5 <;> simp [this, h]
+  have hwire : wireHitFlags stored rd cd =
+      (if (cd && stored.testBit 5) = true then (clearAD (applyReply stored 0 rd cd), false)
+       else (applyReply stored 0 rd cd, stored.testBit 5)) := by
+    simp only [wireHitFlags, hadbit]
+  refine ⟨?_, ?_, ?_⟩
+  · -- flat hit
+    apply Nat.eq_of_testBit_eq
+    intro i
+    have hi := @testBit_high stored i hs
+    rw [hwire]
+    by_cases h5 : stored.testBit 5 = true
+    · cases rd <;> cases cd <;> cases noad <;>
+      simp only [h5, ednsWriteWireFlags, msgHitFlags, setReplyMsg, Hdr.decode, Hdr.encode, applyReply,
+        clearAD, andNot, FlagQR, FlagAA, FlagRD, FlagCD, FlagAD, FlagOpcodeMsk, FlagOpcodeSh, u16max, Nat.testBit_or, Nat.testBit_and, Nat.testBit_xor, Nat.testBit_two_pow, Nat.testBit_two_pow_sub_one,
+        Nat.testBit_shiftLeft, Nat.testBit_mod_two_pow, testBit_bit, if_true, if_false, Bool.false_eq_true, Bool.and_true,
+        Bool.and_false, Bool.true_and, Bool.false_and, Bool.not_true, Bool.not_false, Nat.zero_mod, Nat.zero_shiftLeft,
+        Nat.zero_testBit, reduceIte] <;>
+      (rcases bit_cases i with rfl | rfl | rfl | rfl | rfl | rfl | rfl | rfl | rfl | rfl | rfl | rfl | rfl | rfl | rfl | rfl | h16
+       all_goals first
+         | (simp [Nat.testBit_mod_two_pow, Nat.testBit_shiftRight, h5] <;> decide)
+         | (have hh := hi h16
+            simp [hh, show ¬(15 = i) by omega, show ¬(10 = i) by omega, show ¬(i - 11 < 4) by omega,
+              show ¬(9 = i) by omega, show ¬(8 = i) by omega, show ¬(7 = i) by omega, show ¬(6 = i) by omega,
+              show ¬(5 = i) by omega, show ¬(4 = i) by omega, show ¬ (i < 16) by omega, show ¬ (i < 4) by omega]))
+    · have h5' : stored.testBit 5 = false := by simpa using h5
+      cases rd <;> cases cd <;> cases noad <;>
+      simp only [h5', ednsWriteWireFlags, msgHitFlags, setReplyMsg, Hdr.decode, Hdr.encode, applyReply,
+        clearAD, andNot, FlagQR, FlagAA, FlagRD, FlagCD, FlagAD, FlagOpcodeMsk, FlagOpcodeSh, u16max, Nat.testBit_or, Nat.testBit_and, Nat.testBit_xor, Nat.testBit_two_pow, Nat.testBit_two_pow_sub_one,
+        Nat.testBit_shiftLeft, Nat.testBit_mod_two_pow, testBit_bit, if_true, if_false, Bool.false_eq_true, Bool.and_true,
+        Bool.and_false, Bool.true_and, Bool.false_and, Bool.not_true, Bool.not_false, Nat.zero_mod, Nat.zero_shiftLeft,
+        Nat.zero_testBit, reduceIte] <;>
+      (rcases bit_cases i with rfl | rfl | rfl | rfl | rfl | rfl | rfl | rfl | rfl | rfl | rfl | rfl | rfl | rfl | rfl | rfl | h16
+       all_goals first
+         | (simp [Nat.testBit_mod_two_pow, Nat.testBit_shiftRight, h5'] <;> decide)
+         | (have hh := hi h16
+            simp [hh, show ¬(15 = i) by omega, show ¬(10 = i) by omega, show ¬(i - 11 < 4) by omega,
+              show ¬(9 = i) by omega, show ¬(8 = i) by omega, show ¬(7 = i) by omega, show ¬(6 = i) by omega,
+              show ¬(5 = i) by omega, show ¬(4 = i) by omega, show ¬ (i < 16) by omega, show ¬ (i < 4) by omega]))
+  · intro hcd; subst hcd
+    cases rd <;> cases noad <;> decide
+  · have : stale * 0 = 0 := Nat.mul_zero _
+    simp only [wireFailureFlags, this]
+    cases rd <;> cases cd <;> cases noad <;> decide
+
+-- non-vacuity: stored `qr rd ra ad`, CD request: AD must not reach the client on either path
+example : ednsWriteWireFlags true (wireHitFlags 0x81A0 true true) = 0x8190 ∧ msgHitFlags 0x81A0 true true true = 0x8190 := by
+  decide
+
 /-! ## 6. Facts regenerated from the tree (one-directional side conditions) -/
 
 /-- The real `ApplyReply` / `ClearAD`, evaluated on every single-bit word (and
@@ -463,6 +712,19 @@ theorem parsewire_boundaries_within_spec :
     (∀ c ∈ SdnsVerif.Gen.C05.parsewire_option_codes_ok, c = 3 ∨ c = 8 ∨ c = 10 ∨ c = 11 ∨ c = 12) ∧
     SdnsVerif.Gen.C05.parsewire_two_cookies_ok = false ∧
     SdnsVerif.Gen.C05.parsewire_max_label ≤ 63 ∧ SdnsVerif.Gen.C05.parsewire_max_name ≤ 255 := by
+  decide
+
+/-- The hypotheses the branch theorems carry are facts of the tree: every
+built-in empty zone (configured zones must lie at or below one) ends in
+`arpa` (`as112_wire_eq_msg`), every record type a validated NXDOMAIN proof
+is made of — SOA, RRSIG, NSEC, NSEC3 — is one the wire composer re-encodes,
+so no recorded cut is invisible to the byte-side index (`ladder_agree`,
+hypothesis `cutWire = cut`), and the edns size constants are the model's. -/
+theorem branch_hypotheses_match_tree :
+    SdnsVerif.Gen.C05.as112_zone_last_labels = ["arpa"] ∧
+    (∀ t ∈ [6, 46, 47, 50], t ∈ SdnsVerif.Gen.C05.wire_recomposable_types) ∧
+    SdnsVerif.Gen.C05.minMsgSizeLib = MinMsgSize ∧ SdnsVerif.Gen.C05.maxMsgSizeLib = MaxMsgSize ∧
+    SdnsVerif.Gen.C05.defaultMsgSize = DefaultMsgSize := by
   decide
 
 end SdnsVerif.Props.C05
